@@ -126,8 +126,10 @@ structure File (C : Type) where
 
 abbrev FS (C : Type) := String → Option (File C)
 
+/-- the `lru_cache` key: the file *name as given* (not resolved), the other arguments, and the
+identity of the file the name designates now -/
 structure Key (A : Type) where
-  path : String
+  name : String
   args : A
   ident : Nat
 deriving DecidableEq
@@ -139,72 +141,100 @@ def Cache.find {A V} [DecidableEq A] (c : Cache A V) (k : Key A) : Option V :=
   | some e => some e.2
   | none => none
 
-/-- repaired `load_cropped_and_aligned_image`; `evict` is whatever `lru_cache` drops/reorders -/
+/-- repaired `load_cropped_and_aligned_image`.  `rpath` is the path the loader actually opens:
+the name resolved against the working directory (`resolve_with_working_directory`); the identity
+in the key is the identity of **that** file.  `evict` is whatever `lru_cache` drops/reorders. -/
 def memoLoad {A C V} [DecidableEq A] (f : A → C → V) (evict : Cache A V → Cache A V)
-    (cache : Cache A V) (fs : FS C) (path : String) (args : A) : Option V × Cache A V :=
-  match fs path with
+    (cache : Cache A V) (fs : FS C) (name rpath : String) (args : A) : Option V × Cache A V :=
+  match fs rpath with
   | none => (none, cache)                       -- OSError: nothing is cached for a raising call
   | some file =>
     match file.ident with
     | none => (some (f args file.content), cache)          -- no identity: cache bypassed
     | some id =>
-      match cache.find ⟨path, args, id⟩ with
+      match cache.find ⟨name, args, id⟩ with
       | some v => (some v, cache)
       | none =>
         let v := f args file.content
-        (some v, evict ((⟨path, args, id⟩, v) :: cache))
+        (some v, evict ((⟨name, args, id⟩, v) :: cache))
 
-/-- the unrepaired code: key = (path, args) only (modelled with a constant identity) -/
+/-- the unrepaired code: key = (name, args) only (modelled with a constant identity) -/
 def memoLoadStale {A C V} [DecidableEq A] (f : A → C → V)
-    (cache : Cache A V) (fs : FS C) (path : String) (args : A) : Option V × Cache A V :=
-  match cache.find ⟨path, args, 0⟩ with
+    (cache : Cache A V) (fs : FS C) (name rpath : String) (args : A) : Option V × Cache A V :=
+  match cache.find ⟨name, args, 0⟩ with
   | some v => (some v, cache)
   | none =>
-    match fs path with
+    match fs rpath with
     | none => (none, cache)
     | some file =>
       let v := f args file.content
-      (some v, (⟨path, args, 0⟩, v) :: cache)
+      (some v, (⟨name, args, 0⟩, v) :: cache)
+
+/-- a wrong repair (seeded defect C20-2): the identity is taken from the name *as given* while the
+content is read from the resolved path -/
+def memoLoadUnresolvedIdent {A C V} [DecidableEq A] (f : A → C → V)
+    (cache : Cache A V) (fs : FS C) (name rpath : String) (args : A) : Option V × Cache A V :=
+  match fs rpath with
+  | none => (none, cache)
+  | some file =>
+    match (fs name).bind (·.ident) with
+    | none => (some (f args file.content), cache)
+    | some id =>
+      match cache.find ⟨name, args, id⟩ with
+      | some v => (some v, cache)
+      | none => (some (f args file.content), (⟨name, args, id⟩, f args file.content) :: cache)
 
 /-- events of one process's history -/
 inductive Ev (A C : Type)
-  | write (path : String) (content : C) (statable : Bool)   -- (re)write a file
+  | write (path : String) (content : C) (statable : Bool)   -- (re)write a file (absolute path)
   | remove (path : String)
-  | load (path : String) (args : A)
+  | setwd (wd : String)                                     -- `pyxel.set_options(working_directory=…)`
+  | load (name : String) (args : A)                         -- a model loads `name` (maybe relative)
 
 structure World (A C V : Type) where
   fs : FS C
   clock : Nat                 -- source of fresh identities: every write gets a new one
+  wd : String                 -- the working directory in force
   cache : Cache A V
 
-def World.init {A C V} : World A C V := ⟨fun _ => none, 1, []⟩
+def World.init {A C V} : World A C V := ⟨fun _ => none, 1, "", []⟩
 
-/-- one event; returns the loader's answer for `load` events -/
-def step {A C V} [DecidableEq A] (f : A → C → V) (evict : Cache A V → Cache A V)
-    (w : World A C V) : Ev A C → World A C V × Option (Option V)
+/-- one event; returns the loader's answer for `load` events.  `resolve wd name` is the path that
+`name` designates under working directory `wd`. -/
+def step {A C V} [DecidableEq A] (resolve : String → String → String) (f : A → C → V)
+    (evict : Cache A V → Cache A V) (w : World A C V) : Ev A C → World A C V × Option (Option V)
   | .write p c st =>
     ({ w with fs := fun q => if q = p then some ⟨if st then some w.clock else none, c⟩ else w.fs q,
               clock := w.clock + 1 }, none)
   | .remove p => ({ w with fs := fun q => if q = p then none else w.fs q }, none)
-  | .load p a =>
-    let r := memoLoad f evict w.cache w.fs p a
+  | .setwd d => ({ w with wd := d }, none)
+  | .load n a =>
+    let r := memoLoad f evict w.cache w.fs n (resolve w.wd n) a
     ({ w with cache := r.2 }, some r.1)
 
-/-- the uncached reference: read the file now and place it -/
-def stepSpec {A C V} (f : A → C → V) (fs : FS C) : Ev A C → Option (Option V)
-  | .load p a => some ((fs p).map (fun file => f a file.content))
+/-- the uncached reference: read the designated file now and place it -/
+def stepSpec {A C V} (resolve : String → String → String) (f : A → C → V) (fs : FS C)
+    (wd : String) : Ev A C → Option (Option V)
+  | .load n a => some ((fs (resolve wd n)).map (fun file => f a file.content))
   | _ => none
 
-def run {A C V} [DecidableEq A] (f : A → C → V) (evict : Cache A V → Cache A V) :
-    World A C V → List (Ev A C) → List (Option (Option V))
+def run {A C V} [DecidableEq A] (resolve : String → String → String) (f : A → C → V)
+    (evict : Cache A V → Cache A V) : World A C V → List (Ev A C) → List (Option (Option V))
   | _, [] => []
-  | w, e :: es => (step f evict w e).2 :: run f evict (step f evict w e).1 es
+  | w, e :: es => (step resolve f evict w e).2 :: run resolve f evict (step resolve f evict w e).1 es
 
 /-- the same history without any cache -/
-def runSpec {A C V} [DecidableEq A] (f : A → C → V) (evict : Cache A V → Cache A V) :
-    World A C V → List (Ev A C) → List (Option (Option V))
+def runSpec {A C V} [DecidableEq A] (resolve : String → String → String) (f : A → C → V)
+    (evict : Cache A V → Cache A V) : World A C V → List (Ev A C) → List (Option (Option V))
   | _, [] => []
-  | w, e :: es => stepSpec f w.fs e :: runSpec f evict (step f evict w e).1 es
+  | w, e :: es =>
+    stepSpec resolve f w.fs w.wd e :: runSpec resolve f evict (step resolve f evict w e).1 es
+
+/-- `complete_path`: an absolute name is kept, a relative one is joined to the working directory
+(no working directory: kept, i.e. relative to the process's current directory, which the harness
+maps to the prefix `cwd/`) -/
+def resolvePath (wd name : String) : String :=
+  if name.startsWith "/" then name else if wd = "" then "cwd/" ++ name else wd ++ "/" ++ name
 
 /-! ## text images: separator detection of `load_image` -/
 
